@@ -299,6 +299,17 @@ func check(recs []*rec, final map[string]string, e *vsched.Execution) sched.Outc
 
 var alpha = []op{{"create", "p"}, {"close", "p"}, {"delete", "p"}, {"get", "p"}, {"dump", ""}, {"create", "q"}, {"close", "q"}, {"delete", "q"}, {"getw", "p"}}
 
+// RaceScenarios: the two-thread drivers, re-used by C32 under the race detector.
+func RaceScenarios() []*sched.Scenario {
+	var out []*sched.Scenario
+	for _, sc := range scenarios(true) {
+		if strings.Contains(sc.Name, " || ") {
+			out = append(out, sc)
+		}
+	}
+	return out
+}
+
 func scenarios(quick bool) []*sched.Scenario {
 	var out []*sched.Scenario
 	maxLen := 3
